@@ -10,6 +10,14 @@
 #include <string>
 #include <vector>
 #include <deque>
+#include <csignal>
+#include <unistd.h>
+
+// per-line watchdog: if one case line runs longer than `secs`, the process reports it and exits (the driver then records
+// the line as a crash with this message)
+static void watchdog_fired(int) { const char m[] = "WATCHDOG: this case did not finish (endless loop?)\n"; (void)!write(2, m, sizeof m - 1); _exit(97); }
+static inline void watchdog(unsigned secs) { signal(SIGALRM, watchdog_fired); alarm(secs); }
+
 
 using namespace ArduinoJson;
 
